@@ -24,7 +24,10 @@ RULE = ("base: 1-8 distinct atoms with neutron data (ions, isotopes, D/T, energy
         "density x k (k in 1e-9..1e9; SLDs and cross sections x k, penetration / k, rel 1e-12); all counts x k as a bracketed "
         "string (k = 1e-12..1e12 in the grammar's decimals) and as a dict (k in 1e-12..1e12) (unchanged, rel 1e-11); a regrouped variant = permutation, split counts, 1-3 nesting "
         "levels of implicit/explicit groups with multipliers, same multiset verified in Fractions (unchanged, rel 1e-11); "
-        "dict route vs string route; a Formula object with another preset density called with natural_density= (vs the "
+        "dict route vs string route; the density given as natural_density= must equal density = rho_n x sum n(m - q m_e) / "
+        "sum n(m_natural - q m_e) computed here from the table masses, and count scaling (string, dict), regrouping, "
+        "density scaling, the '@<d>n' suffix and a Formula with natural_density assigned must all agree with it (ions and "
+        "isotope ions with counts != 1 are in the atom pool); a Formula object with another preset density called with natural_density= (vs the "
         "string) and without a density keyword (its own density; object unchanged); energy=E vs wavelength=neutron_wavelength(E) (rel 1e-12); vector call of length "
         "1..12 (list/tuple/float array, integer-valued list/tuple/int32/int64 array) vs the scalar calls at the float values (shape exact, rel 1e-14); the same vector call repeated straight away at "
         "density x k, and again (twice) after the caller overwrote that list/array in place with other wavelengths "
@@ -198,6 +201,42 @@ def check_relations(ctx, v):
     r4 = _scat(s_var, rho, wavelength=lam)
     nonneg(r4, case, s_var)
     same("c04:regroup", base, r4, floors, 1e-11, case, "%s vs %s" % (s0, s_var))
+
+    # the same relations with the density given as NATURAL density (keyword, '@..n' suffix, Formula
+    # attribute).  The isotope-substituted density it stands for is computed here from the table masses:
+    # rho_n * sum n (m_atom - q m_e) / sum n (m_natural element - q m_e)
+    rho_n = rho
+    d_ref = R.density_from_natural(comp, rho_n)
+    facn = dict((o, rho / d_ref) for o in OUTPUTS)
+    facn["penetration"] = d_ref / rho
+    nA = _call(s0, natural_density=rho_n, wavelength=lam)
+    nonneg(nA, case, "natural_density")
+    same("c04:natural-density:value", base, nA, floors, 1e-12, case,
+         "%s natural_density=%r must be density=%r" % (s0, rho_n, d_ref), facn)
+    fln = dict((o, floors[o] * (d_ref / rho if o != "penetration" else 1.0)) for o in floors)
+    n2 = _call(s2, natural_density=rho_n, wavelength=lam)
+    same("c04:natural-density:count-scale:string", nA, n2, fln, 1e-11, case, "natural_density=%r: %s vs %s" % (rho_n, s0, s2))
+    n3 = _call(d3, natural_density=rho_n, wavelength=lam)
+    same("c04:natural-density:count-scale:dict", nA, n3, fln, 1e-11, case, "natural_density=%r: %s vs dict x %r" % (rho_n, s0, kf))
+    n4 = _call(s_var, natural_density=rho_n, wavelength=lam)
+    same("c04:natural-density:regroup", nA, n4, fln, 1e-11, case, "natural_density=%r: %s vs %s" % (rho_n, s0, s_var))
+    tag = ng.dec(Fraction(repr(float(rho_n))))
+    if float(tag) == rho_n:
+        s5 = (s2 if v["vvar"] else s_var) + "@" + tag + "n"
+        n5 = _call(s5, wavelength=lam)
+        same("c04:natural-density:tag", nA, n5, fln, 1e-11, case, "%s natural_density=%r vs %s" % (s0, rho_n, s5))
+    fn = pt.formula(s_var if v["vvar"] else s2)
+    fn.natural_density = rho_n
+    n6 = _call(fn, wavelength=lam)
+    same("c04:natural-density:formula-attribute", nA, n6, fln, 1e-11, case,
+         "%s natural_density=%r vs Formula(%s).natural_density = %r" % (s0, rho_n, fn, rho_n))
+    n7 = _call(s2, natural_density=rho_n * k, wavelength=lam)
+    same("c04:natural-density:density-scale", nA, n7, fln, 1e-11, case,
+         "%s natural_density %r vs %s natural_density %r" % (s0, rho_n, s2, rho_n * k), fac)
+    if any(c for z, a, c in comp):
+        ctx.count("natural-density:with-ions")
+    if any(c and n != 1 for (z, a, c), n in comp.items()):
+        ctx.count("natural-density:ion-count-not-1")
 
     # energy vs wavelength
     en = R.energy(lam)
